@@ -121,6 +121,11 @@ fn main() {
             // run the failing-operation history once, loudly (no catch), and report what it contains
             pv::perturb::self_test();
         }
+        Some("genkeys-primes") => {
+            let path = concat!(env!("CARGO_MANIFEST_DIR"), "/data/rsa_pool.json");
+            let out = keypool::add_prime_shapes(&std::fs::read_to_string(path).unwrap());
+            std::fs::write(path, out).unwrap();
+        }
         Some("genkeys-exp") => {
             let path = concat!(env!("CARGO_MANIFEST_DIR"), "/data/rsa_pool.json");
             let out = keypool::add_exponents(&std::fs::read_to_string(path).unwrap());
